@@ -535,7 +535,7 @@ Section Resolve.
   (** ResolveReference *)
   Definition resolve_reference (st : state) (r : reference) : ptr * state :=
     match alookup (r_res r) (st_res st) with
-    | Some _ => get_resolved_item st (r_res r) (r_path r)
+    | Some rs => if rs_loaded rs then get_resolved_item st (r_res r) (r_path r) else (None, st)
     | None =>
         let '(id, loaded, st1) := compile_h ds st (r_res r) in
         if loaded then get_resolved_item st1 id (r_path r) else (None, st1)
